@@ -31,6 +31,7 @@ from .utils import get_hostname, foreign_raise, is_windows, get_logger, classpro
 logger = get_logger(__name__)
 
 default_port = 60006
+ctrl_connect_timeout = 10 # seconds the server waits for a client to connect to the control socket
 
 
 class ConnectionClosedError(Exception):
@@ -491,7 +492,10 @@ class RemoteWorker(Worker, metaclass=RemoteWorkerMeta):
             self._remote_side = True
             self._is_backend = False
 
-            logger.debug('Client data socket is: {}', self._socket.getpeername())
+            try:
+                logger.debug('Client data socket is: {}', self._socket.getpeername())
+            except OSError as e:
+                raise ConnectionClosedError() from e
             logger.debug('Creating a control socket for this connection...')
             self._ctrl_sock = socket.socket(socket.AF_INET, socket.SOCK_STREAM)
             self._ctrl_sock.bind((self._socket.getsockname()[0], 0))
@@ -503,6 +507,10 @@ class RemoteWorker(Worker, metaclass=RemoteWorkerMeta):
 
             incoming = self._ctrl_sock
             logger.debug('Waiting for a connect to the control socket from the parent')
+            # The client does not write to the data socket at this stage, so if it becomes readable the client is gone
+            if incoming not in mp.connection.wait([incoming, self._socket], timeout=ctrl_connect_timeout):
+                incoming.close()
+                raise ConnectionClosedError('Client did not connect to the control socket')
             self._ctrl_sock, ctrl_peer = incoming.accept()
             set_keepalive(self._ctrl_sock, True)
             logger.details('Control sockets connected: {} <==> {}', self._ctrl_sock.getsockname(), ctrl_peer)
@@ -527,6 +535,8 @@ class RemoteWorker(Worker, metaclass=RemoteWorkerMeta):
             self._startup_sync.wait()
 
             # Receiving runtime info is a signal for us that everything is ok
+            if self._comms.parent_end not in mp.connection.wait([self._comms.parent_end, self._child.sentinel]):
+                raise ConnectionClosedError('Backend died before sending its runtime info')
             runtime_info = self._comms.parent_end.recv()
             self._host, self._pid, self._tid, self._ident = runtime_info
             send_msg(self._ctrl_sock, runtime_info, comment='ctrl: runtime info')
